@@ -241,12 +241,12 @@ def harnesses(tier, seed):
         # three or more data centres: the random data-centre choice makes the selected cyclers symbolic references (8.8 M variables)
         rng_path = _uses_rng(layout, dc, lname)
         t_s = (3000 if tier == "thorough" else 800) if (heavy or rng_path) else 800
-        mem = 20 if rng_path else (12 if heavy else 8)
+        mem = (20 if lname == "one" else 36) if rng_path else (12 if heavy else 8)
         cap = _cap_for(layout)
         if cap >= 8:
             t_s, mem = 3000, max(mem, 24)
         elif cap >= 5:
-            t_s, mem = max(t_s, 1500), max(mem, 12)
+            t_s, mem = max(t_s, 1500), max(mem, 24 if heavy else 12)
         hs.append({
             "name": name, "crate": crate, "timeout_s": t_s, "mem_gb": mem,
             "min_covers": 1,
